@@ -263,7 +263,12 @@ def judgeAll (g : Graph) (seqTasks : List String) (ops : List Json) (trigs : Lis
                 let seqNotSpawned := seq && b.isNone && (match inst m with
                   | some d => !d.parentlessIcp && d.tdefAtoms.all fun a => G.contains (a.pt, a.task)
                   | none => false)
-                fails := fails ++ [⟨if seqNotSpawned then some "sequential-task"
+                -- ... or it is in the pool, waiting for its implicit previous-instance prerequisite (shape (ii))
+                let seqImplicitUnsat := seq && a.isSome && (match inst m with
+                  | some d => (((after.pre.find? (·.1 == m)).map (·.2)).getD []).any fun av =>
+                      av.2.2.2 == 0 && !(d.tdefAtoms.contains ⟨av.1, av.2.1, av.2.2.1⟩)
+                  | none => false)
+                fails := fails ++ [⟨if seqNotSpawned || seqImplicitUnsat then some "sequential-task"
                     else if survives then some "queued-row-survives-removal" else none,
                   s!"start-not-launched: op {i}: group-start member {showKey m} (before: {(b.map (·.st)).getD "not in the pool"}) not launched by the next main loop (op {j})"⟩]
               for l in ls do
@@ -300,7 +305,7 @@ def judgeAll (g : Graph) (seqTasks : List String) (ops : List Json) (trigs : Lis
       -- (it is respawned, or spawned later by its in-group parents) must not be left on hold by a `cylc hold`
       -- issued BEFORE the trigger: not in the hold list right after the command, and not held when it is in the
       -- pool later -- unless the user holds it (hold command naming it, hold point set, restart) after the trigger
-      if !liveStart && !exemptNone && !(isStart m && b.isSome) then
+      if !liveStart && !exemptNone && !(isStart m && b.isSome) && !after.now.contains m then
         let beyond (o : Ob) : Bool := match o.holdPoint with | some hp => m.1 > hp | none => false
         let keyOfShape (o : Ob) : Option String :=
           if beyond before || beyond o then some "hold-point-blocks-member"
